@@ -188,6 +188,13 @@ def check_rle(vals, num):
     canon = _canon(obj)
     zero_runs = any(s == 0 and r > 0 for _, s, r in canon)
     out = [canon]
+    # positions held in numpy integers (an index taken from an array), from the front and from the end
+    import numpy as _np
+    ok, got = _call(lambda: [obj.value(_np.int64(i)) for i in range(n)] + [obj.value(_np.int64(i - n)) for i in range(n)])
+    if not ok:
+        flag('rle_value_numpy_position_raise', 'value(numpy.int64(i)) raised %s' % _exc(got), exc=type(got).__name__)
+    elif not all(same(a.item() if isinstance(a, _np.generic) else a, b) for a, b in zip(got, vals + vals)):      # (the number may come back as a numpy scalar: the statement speaks of the number)
+        flag('rle_value_numpy_position', 'value(numpy.int64(i)) for i = 0..%d and -%d..-1 gives %r; runs %r' % (n - 1, n, got, canon))
 
     # count
     ok, got = _call(obj.num_values)
